@@ -147,12 +147,11 @@ def wrapFixedOutputs {σ} (g : Body σ) (s0 : σ) (inputs : List Inp) : List Out
 
 /-! ## World model -/
 
-abbrev ActionId := Nat
-abbrev CtxId := Nat
+/-! Action identities and Context identities are plain `Nat`s (an `abbrev` gets in the way of `omega`). -/
 
 /-- body instructions (flat; `try … catch … endcatch` brackets) -/
 inductive Instr where
-  | enter (a : ActionId)      -- a = start_action(...); a.__enter__()
+  | enter (a : Nat)      -- a = start_action(...); a.__enter__()
   | exit                      -- innermost own action .__exit__(None, None, None); no-op if none
   | log (m : Nat)             -- observe current_action()
   | yield (v : Val)           -- last = yield v
@@ -166,15 +165,23 @@ inductive Instr where
 deriving DecidableEq, Repr, Inhabited
 
 structure Tok where
-  ctx : CtxId
-  old : Option ActionId
+  ctx : Nat
+  old : Option Nat
 deriving DecidableEq, Repr
 
 structure Obs where
   gen : Nat
   tag : Nat
-  seen : Option ActionId        -- current_action() at the `log`
-  expected : Option ActionId    -- ghost: innermost own action, else the action current at first resumption
+  seen : Option Nat        -- current_action() at the `log`
+  expected : Option Nat    -- ghost: innermost own action, else the action current at first resumption
+deriving DecidableEq, Repr
+
+/-- ghost record of a resumption made from inside a body -/
+structure NRec where
+  by_ : Nat
+  gen : Nat
+  before : Option Nat      -- the resuming body's current_action() before …
+  after : Option Nat       -- … and after the resumption
 deriving DecidableEq, Repr
 
 structure GSt where
@@ -182,30 +189,32 @@ structure GSt where
   code : List Instr                      -- rest of the body
   ist : Status := .unstarted             -- inner generator object
   wst : Status := .unstarted             -- wrapper generator object
-  wctx : Option CtxId := none            -- the wrapper's `context`
+  wctx : Option Nat := none            -- the wrapper's `context`
   toks : List Tok := []                  -- `_parent_token`s of the own entered actions, innermost first
   last : Val := none
-  base : Option ActionId := none         -- ghost: action current when the body first ran
-  own : List ActionId := []              -- ghost: own entered actions, innermost first
+  base : Option Nat := none         -- ghost: action current when the body first ran
+  own : List Nat := []              -- ghost: own entered actions, innermost first
 deriving Repr
 
 structure World where
-  ctxs : CtxId → Option ActionId         -- value of _ACTION_CONTEXT in each Context (unset = None)
-  nctx : CtxId                           -- next fresh Context id
-  cur : CtxId                            -- the Context the thread is running in
+  ctxs : Nat → Option Nat         -- value of _ACTION_CONTEXT in each Context (unset = None)
+  nctx : Nat                           -- next fresh Context id
+  cur : Nat                            -- the Context the thread is running in
   gens : Nat → Option GSt
   obs : List Obs                         -- newest first
   dtoks : List Tok                       -- driver's tokens (its `with action.context()` blocks)
+  pending : Option Nat := none      -- ghost: current action of whoever issued the latest resumption
+  nrecs : List NRec := []                -- ghost: resumptions from inside bodies, newest first
 
-def World.curAction (w : World) : Option ActionId := w.ctxs w.cur
+def World.curAction (w : World) : Option Nat := w.ctxs w.cur
 
-def World.setCtx (w : World) (c : CtxId) (v : Option ActionId) : World :=
+def World.setCtx (w : World) (c : Nat) (v : Option Nat) : World :=
   { w with ctxs := fun x => if x = c then v else w.ctxs x }
 
 def World.setGen (w : World) (i : Nat) (g : GSt) : World :=
   { w with gens := fun x => if x = i then some g else w.gens x }
 
-def expectedOf (g : GSt) : Option ActionId :=
+def expectedOf (g : GSt) : Option Nat :=
   match g.own with
   | a :: _ => some a
   | [] => g.base
@@ -251,10 +260,13 @@ def runCode (child : Nat → Inp → World → Out × World) (i : Nat) :
     | .endcatch => runCode child i rest .normal g w
     | .resume j inp =>
       -- the body's own state must be visible to nobody else meanwhile; children have j > i
-      match child j inp w with
-      | (.yielded v, w') => runCode child i rest .normal { g with last := v } w'
-      | (.returned v, w') => runCode child i rest .normal { g with last := v } w'
-      | (.raised e, w') => runCode child i rest (.prop e 0) g w'
+      match child j inp { w with pending := w.ctxs w.cur } with
+      | (.yielded v, w') =>
+        runCode child i rest .normal { g with last := v } { w' with nrecs := ⟨i, j, w.ctxs w.cur, w'.ctxs w'.cur⟩ :: w'.nrecs }
+      | (.returned v, w') =>
+        runCode child i rest .normal { g with last := v } { w' with nrecs := ⟨i, j, w.ctxs w.cur, w'.ctxs w'.cur⟩ :: w'.nrecs }
+      | (.raised e, w') =>
+        runCode child i rest (.prop e 0) g { w' with nrecs := ⟨i, j, w.ctxs w.cur, w'.ctxs w'.cur⟩ :: w'.nrecs }
   | ins :: rest, .prop e d, g, w =>
     match ins with
     | .try_ => runCode child i rest (.prop e (d + 1)) g w
@@ -276,7 +288,10 @@ def innerBody (child : Nat → Inp → World → Out × World) (i : Nat) (b : BI
   | none => (.raised .badGen, w)
   | some g =>
     match b with
-    | .start => runCode child i g.code .normal { g with base := w.ctxs w.cur } w
+    | .start =>
+      -- ghost observation (tag 0): the context the body starts in vs. the resumer's current action
+      runCode child i g.code .normal { g with base := w.ctxs w.cur }
+        { w with obs := ⟨i, 0, w.ctxs w.cur, w.pending⟩ :: w.obs }
     | .val v => runCode child i g.code .normal { g with last := v } w
     | .exc e => runCode child i g.code (.prop e 0) g w
 
@@ -292,7 +307,7 @@ def innerResume (child : Nat → Inp → World → Out × World) (i : Nat) (inp 
       | some g' => (o, w'.setGen i { g' with ist := st })
 
 /-- `context.run(f)` -/
-def runIn (c : CtxId) (f : World → Out × World) (w : World) : Out × World :=
+def runIn (c : Nat) (f : World → Out × World) (w : World) : Out × World :=
   match f { w with cur := c } with
   | (o, w') => (o, { w' with cur := w.cur })
 
@@ -334,15 +349,15 @@ def resumeGen (k : Bool) : Nat → Nat → Inp → World → Out × World
 /-! ## Driver scripts -/
 
 inductive DStep where
-  | enter (a : ActionId)            -- cm = A[a].context(); cm.__enter__()
+  | enter (a : Nat)            -- cm = A[a].context(); cm.__enter__()
   | exit                            -- innermost cm.__exit__(None, None, None); no-op if none
   | resume (i : Nat) (inp : Inp)
 deriving DecidableEq, Repr, Inhabited
 
 structure StepRec where
   out : Option Out                  -- result of a resume step
-  before : Option ActionId          -- driver's current_action() before the step
-  after : Option ActionId           -- … and after it
+  before : Option Nat          -- driver's current_action() before the step
+  after : Option Nat           -- … and after it
 deriving DecidableEq, Repr
 
 def dstep (k : Bool) (fuel : Nat) (s : DStep) (w : World) : Option Out × World :=
@@ -353,7 +368,7 @@ def dstep (k : Bool) (fuel : Nat) (s : DStep) (w : World) : Option Out × World 
     | [] => (none, w)
     | t :: ts => (none, { (w.setCtx w.cur t.old) with dtoks := ts })
   | .resume i inp =>
-    match resumeGen k fuel i inp w with
+    match resumeGen k fuel i inp { w with pending := w.ctxs w.cur } with
     | (o, w') => (some o, w')
 
 def runScript (k : Bool) (fuel : Nat) : List DStep → World → List StepRec × World
